@@ -29,16 +29,29 @@ from harness.common import (Run, Disagreement, cli, LEAN, VERIF, REPO, DriverErr
 
 PROP = 'C04'
 VERSIONS = ['10', '20', '30', '31']
+# the 2.0+ parsers built with compatibility_mode=True: same EBNF, own generated tables and theorems
+COMPAT = ['20c', '30c', '31c']
+ALL_VERSIONS = VERSIONS + COMPAT
+VNUM = {'10': 10, '20': 20, '30': 30, '31': 31, '20c': 120, '30c': 130, '31c': 131}
+
+
+def base_of(ver: str) -> str:
+    return ver[:2]
+
 TYPED_KEYWORD = {'instance': 'instance of', 'treat': 'treat as', 'castable': 'castable as', 'cast': 'cast as'}
 CLOSERS = {')': 0, ']': 1}
 NOT_IN_FRAGMENT = {':', '#', 'Q{', '{', '}'}     # QName / EQName / named function reference syntax
 CLOSER_TEXT = {0: ')', 1: ']'}
 # sample operand texts per atom kind (kind k, id n)
-ATOM_KINDS = 4
+# 4-6 (XPath 3.1 only): unary lookups `?name`, `?integer`, `?*` — primary expressions of the EBNF
+# (3.1 [76] UnaryLookup ::= "?" KeySpecifier); the Lean model sees them as operands, so the real parser's
+# handling of a unary lookup in every operand position is compared with the EBNF reference parser.
+def atom_kinds(ver: str) -> int:
+    return 7 if ver.startswith('31') else 4
 
 
 def atom_text(k: int, n: int) -> str:
-    return [f'n{n}', f'{n}', f'$v{n}', f"'s{n}'"][k]
+    return [f'n{n}', f'{n}', f'$v{n}', f"'s{n}'", f'?n{n}', f'?{n}', '?*'][k]
 
 
 # type texts by index; 0-3 are SingleTypes (usable after cast/castable as), 4-5 SequenceTypes only.
@@ -59,13 +72,19 @@ def parser_class(ver: str):
     from elementpath.xpath30 import XPath30Parser
     from elementpath.xpath31 import XPath31Parser
     return {'10': elementpath.XPath1Parser, '20': elementpath.XPath2Parser,
-            '30': XPath30Parser, '31': XPath31Parser}[ver]
+            '30': XPath30Parser, '31': XPath31Parser}[base_of(ver)]
 
 
-def parser(ver: str):
-    if ver not in _parsers:
-        _parsers[ver] = parser_class(ver)()
-    return _parsers[ver]
+def parser(ver: str, **options):
+    """the parser instance of a version key ('20c' = XPath2Parser(compatibility_mode=True)); extra
+    constructor options give other cached variants"""
+    key = (ver, json.dumps(options, sort_keys=True))
+    if key not in _parsers:
+        kw = dict(options)
+        if ver.endswith('c'):
+            kw['compatibility_mode'] = True
+        _parsers[key] = parser_class(ver)(**kw)
+    return _parsers[key]
 
 
 # --------------------------------------------------------------------------- impl observation
@@ -91,6 +110,14 @@ def dump(tok, symidx=None) -> str:
         if isinstance(v, str) and v[:1] == 's' and v[1:].isdigit():
             return f'3.{v[1:]}'
         return f'?str:{v}'
+    if s == '?' and n == 1:
+        c = tok[0]
+        if c.symbol == '(name)' and isinstance(c.value, str) and c.value[:1] == 'n' and c.value[1:].isdigit():
+            return f'4.{c.value[1:]}'
+        if c.symbol == '(integer)':
+            return f'5.{c.value}'
+        if c.symbol == '*' and len(c) == 0:
+            return '6.0'
     if s == '(':
         if n == 0:
             return '(G( _)'
@@ -112,14 +139,14 @@ def dump(tok, symidx=None) -> str:
     return '(?' + s + ''.join(' ' + dump(x) for x in tok) + ')'
 
 
-def impl_parse(ver: str, src: str):
+def impl_parse(ver: str, src: str, **options):
     """returns (canonical dump or ERR:.., token or None)"""
     from elementpath.exceptions import ElementPathError
     from elementpath.tdop import Parser as TdopParser
     try:
         # the syntactic phase of XPath1Parser.parse (tdop.Parser.parse); the static evaluation that
         # XPath1Parser.parse runs afterwards is not part of this property
-        tok = TdopParser.parse(parser(ver), src)
+        tok = TdopParser.parse(parser(ver, **options), src)
     except ElementPathError as e:
         code = (getattr(e, 'code', None) or 'none').split(':')[-1]
         return f'ERR:{code}', None
@@ -161,13 +188,16 @@ def _closure(func) -> dict:
 
 
 _current_version = ['31']
+_current_cls = [None]
 
 
 def _eval(node, func):
     """value of an expression inside a led/nud (binding powers may depend on `self.parser.version`)"""
     import types
     loc = _closure(func)
-    loc.setdefault('self', types.SimpleNamespace(parser=parser(_current_version[0])))
+    cls = _current_cls[0]
+    loc.setdefault('self', types.SimpleNamespace(parser=parser(_current_version[0]), lbp=getattr(cls, 'lbp', 0),
+                                                 rbp=getattr(cls, 'rbp', 0), symbol=getattr(cls, 'symbol', '')))
     return eval(compile(ast.Expression(node), '<c04>', 'eval'), dict(func.__globals__), loc)
 
 
@@ -275,6 +305,7 @@ def table_rows(ver: str) -> list[dict]:
         label = str(cls.label)
         if cls.pattern is not None and sym not in ('Q{',):
             continue        # functions, axes, kind tests: operands of the fragment, not operators
+        _current_cls[0] = cls
         led = classify_led(sym, cls, Token.led)
         nud = classify_nud(sym, cls, Token.nud)
         if led['kind'] == 'none' and nud['kind'] not in ('prefix', 'group'):
@@ -332,7 +363,7 @@ def probe_guards(ver: str, rows: list[dict]) -> None:
     group = next((r for r in rows if r['nud']['kind'] == 'group'), None)
     # sample left operands by head code
     samples: dict[int, str] = {}
-    for k in range(ATOM_KINDS):
+    for k in range(atom_kinds(ver)):
         samples[atom_code(k)] = atom_text(k, 1)
     if group is not None:
         samples[op_code(group['idx'])] = '( n1 )'
@@ -381,7 +412,7 @@ def probe_guards(ver: str, rows: list[dict]) -> None:
         led['deny'] = deny
         if k == 'infix':
             # next-token check: which first tokens of the right operand are accepted
-            firsts = {atom_code(kk): atom_text(kk, 9) for kk in range(ATOM_KINDS)}
+            firsts = {atom_code(kk): atom_text(kk, 9) for kk in range(atom_kinds(ver))}
             if group is not None:
                 firsts[op_code(group['idx'])] = '( n9 )'
             for rr in rows:
@@ -442,7 +473,7 @@ def tables() -> dict[str, list[dict]]:
     if not _tables_cache:
         for v in VERSIONS:
             parser_class(v)         # import all parser classes first: later versions patch shared token classes
-        for v in VERSIONS:
+        for v in ALL_VERSIONS:
             rows = table_rows(v)
             probe_guards(v, rows)
             _tables_cache[v] = rows
@@ -486,7 +517,10 @@ class VInfo:
         self.idx = {r['sym']: r['idx'] for r in rows}
 
 
-def gen_atom(rng):
+def gen_atom(rng, V=None):
+    if V is not None and V.ver.startswith('31') and rng.random() < 0.14:
+        k = rng.choice([4, 5, 5, 6])
+        return ('a', k, 0 if k == 6 else rng.randrange(1, 8))
     k = rng.choices([0, 1, 2, 3], [60, 15, 17, 8])[0]
     return ('a', k, rng.randrange(1, 8))
 
@@ -494,7 +528,7 @@ def gen_atom(rng):
 def gen_tree(rng, V: VInfo, size: int):
     """random abstract tree with about `size` operators"""
     if size <= 0:
-        return gen_atom(rng)
+        return gen_atom(rng, V)
     r = rng.random()
     if r < 0.62 and V.infix:
         o = rng.choice(V.infix)
@@ -516,7 +550,7 @@ def gen_tree(rng, V: VInfo, size: int):
     if V.group:
         g = rng.choice(V.group)
         return ('g', g, V.rows[g]['nud']['close'], gen_tree(rng, V, size - 1))
-    return gen_atom(rng)
+    return gen_atom(rng, V)
 
 
 def unparse(rng, V: VInfo, t, paren: float) -> list:
@@ -555,6 +589,8 @@ def out_of_fragment(V: VInfo, toks: list) -> str | None:
             return 'type-followed-by-parenthesis'    # `xs:string (` is tokenised as a constructor call
         if b[0] == 'o' and V.sym[b[1]] == '(' and a[0] == 'a' and a[1] != 2:
             return 'static-call-or-literal-call'     # `n1(..)` is a static FunctionCall (XPST0017), `1(..)` XPTY0004
+        if a[0] == 'a' and a[1] == 6 and b[0] == 'a' and b[1] in (0, 1):
+            return 'wildcard-lookup-followed-by-name'   # `?* n1`: lexically `?*` then a name test, no operator between
         if V.ver == '10' and a[0] == 'o' and V.sym[a[1]] in ('/', '//') and b[0] == 'a' and b[1] == 2:
             return 'xpath1-variable-step'            # 1.0 [4] Step needs a NodeTest; level table says "operand"
         if V.ver == '10' and a[0] == 'o' and V.sym[a[1]] in ('/', '//') and b[0] == 'o' and V.sym[b[1]] == '(':
@@ -567,7 +603,7 @@ def tok_str(t) -> str:
 
 
 def line_of(ver: str, toks: list) -> str:
-    return f'V={ver} T=' + ','.join(tok_str(t) for t in toks)
+    return f'V={VNUM[ver]} T=' + ','.join(tok_str(t) for t in toks)
 
 
 def canon(x: str) -> str:
@@ -956,6 +992,12 @@ def sym_toks(V: VInfo, spec: list) -> list:
             out.append(('c', CLOSERS[s]))
         elif s in V.idx:
             out.append(('o', V.idx[s]))
+        elif s == '?*':
+            out.append(('a', 6, 0))
+        elif s[0] == '?' and len(s) > 1 and s[1] == 'n':
+            out.append(('a', 4, int(s[2:])))
+        elif s[0] == '?' and len(s) > 1:
+            out.append(('a', 5, int(s[1:])))
         elif s[0] == 'n':
             out.append(('a', 0, int(s[1:])))
         elif s[0] == '$':
@@ -981,6 +1023,15 @@ SEED_CORPUS = [
     ('31', ['n1', '?', '(', '1', ')', '?', 'n2']), ('31', ['-', 'n1', '?', 'n2']), ('31', ['n1', '!', 'n2', '/', 'n3']),
     ('31', ['n1', 'or', 'n2', 'and', 'n3', '=', 'n4', '||', 'n5', 'to', 'n6', '+', 'n7', '*', 'n1', '|', 'n2', 'intersect', 'n3',
             'instance', 'T4']),
+    # unary lookups as operands right after `(` and `,` (LookupOperatorToken zeroes its lbp/rbp there) and elsewhere
+    ('31', ['(', '?1', '+', '?2', ')']), ('31', ['(', '?1', ',', '?2', ')']), ('31', ['$1', '(', '?1', ',', '?2', '+', '1', ')']),
+    ('31', ['n1', '[', '(', '?1', '+', '1', ')', '=', '2', ']']), ('31', ['n1', '[', '?n1', '+', '1', '=', '2', ']']),
+    ('31', ['(', '?*', '=', '?n2', ',', '?3', '*', '2', ')']), ('31', ['?n1', '?', 'n2', '?', '1']), ('31', ['-', '?1', '||', '?n2']),
+    ('31c', ['(', '?1', '+', '?2', ')']),
+    # grouping of unary minus / plus before the typed and set operators, also in compatibility mode
+    ('20c', ['-', '1', 'instance', 'T0']), ('30c', ['-', '1', 'cast', 'T0']), ('31c', ['-', 'n1', '|', 'n2']),
+    ('20c', ['+', 'n1', 'intersect', 'n2']), ('31c', ['-', 'n1', 'treat', 'T4']), ('20c', ['-', 'n1', 'castable', 'T1']),
+    ('20c', ['-', 'n1', 'union', 'n2', 'except', 'n3']),
     # minimal failing inputs found by the mutation self-test (regression seeds)
     ('20', ['n1', 'to', 'n2', 'to', 'n3']), ('31', ['n1', '|', 'n2', '|', 'n3']), ('30', ['n1', 'intersect', 'n2', 'cast', 'T3']),
     ('20', ['-', 'n1', 'cast', 'T0']), ('30', ['n1', '||', 'n2', 'to', 'n3']), ('10', ['$1', '*', 'n5', '*', 'n6']),
@@ -1012,8 +1063,31 @@ def search(run: Run):
     sub = Run(PROP, run.tier, run.seed)
     cases = []
     A = [('a', 0, 1), ('a', 0, 2), ('a', 0, 3)]
-    for v in VERSIONS:
+    for v in ALL_VERSIONS:
         V = VInfo(v, tabs[v])
+        if v.startswith('31') and V.group:
+            # unary lookups ?k / ?name / ?* in every operand position: first token after `(` and after `,`
+            # (parenthesised expression, call arguments, predicate), followed by each binary operator; postfix lookups
+            g, gc = V.group[0], V.rows[V.group[0]]['nud']['close']
+            comma = V.idx.get(',')
+            pred = V.idx.get('[')
+            look = V.idx.get('?')
+            U = [('a', 5, 1), ('a', 4, 2), ('a', 6, 0), ('a', 5, 3)]
+            for o in V.infix:
+                for u1 in U[:3]:
+                    cases.append((v, [('o', g), u1, ('o', o), U[3], ('c', gc)]))
+                    cases.append((v, [u1, ('o', o), U[3]]))
+                    if comma is not None:
+                        cases.append((v, [('o', g), ('a', 1, 1), ('o', comma), u1, ('o', o), U[3], ('c', gc)]))
+                        cases.append((v, [('a', 2, 1), ('o', g), u1, ('o', o), U[3], ('o', comma), U[1], ('o', o), ('a', 1, 2), ('c', gc)]))
+                    if pred is not None:
+                        cases.append((v, [('a', 0, 1), ('o', pred), u1, ('o', o), ('a', 1, 2), ('c', 1)]))
+                        cases.append((v, [('a', 0, 1), ('o', pred), ('o', g), u1, ('o', o), ('a', 1, 1), ('c', gc), ('o', o), ('a', 1, 2), ('c', 1)]))
+                if look is not None:
+                    cases.append((v, [('a', 0, 1), ('o', look), ('a', 1, 1), ('o', o), ('a', 0, 2), ('o', look), ('a', 0, 3)]))
+                    cases.append((v, [('o', g), ('a', 0, 1), ('o', look), ('a', 1, 1), ('o', o), U[0], ('c', gc)]))
+            for p in V.prefix:
+                cases.append((v, [('o', g), ('o', p), U[0], ('o', comma), ('o', p), U[1], ('c', gc)]) if comma is not None else (v, [('o', p), U[0]]))
 
         def led_tail(o, operand):
             k = V.rows[o]['led']['kind']
@@ -1040,6 +1114,7 @@ def search(run: Run):
 
 def parse_line(line: str):
     fs = dict(kv.split('=', 1) for kv in line.split(' '))
+    fs['V'] = {str(n): v for v, n in VNUM.items()}[fs['V']]
     toks = []
     for t in fs['T'].split(','):
         if t[0] == 'a':
@@ -1127,8 +1202,10 @@ def correspond(run: Run) -> None:
     cases = corpus_cases()
     n = run.scale(6000, 60000)
     skipped = {}
+    # quick: the four default parsers + XPath2Parser(compatibility_mode=True); thorough: all seven
+    versions = VERSIONS + ['20c'] if run.quick else VERSIONS + COMPAT + COMPAT
     while len(cases) < n:
-        v = rng.choice(VERSIONS)
+        v = rng.choice(versions)
         V = VInfo(v, tabs[v])
         size = rng.choice([1, 2, 2, 3, 3, 4, 5, 6, 7, 9] if run.quick else [1, 2, 3, 3, 4, 5, 6, 7, 9, 12])
         t = gen_tree(rng, V, size)
@@ -1141,10 +1218,10 @@ def correspond(run: Run) -> None:
     run.stats.extra['skipped_out_of_fragment'] = skipped
     run.stats.rule = ('token sequences = in-order yield of random trees (1..9 operators quick / 1..12 thorough) over all '
                       'modelled operators of the version (infix, prefix, typed, predicate, call, lookup, comma) with '
-                      'operands name/integer/variable/string, every subtree parenthesised with probability 0/0.15/0.4; '
+                      'operands name/integer/variable/string (3.1: also unary lookups ?name ?int ?*), every subtree parenthesised with probability 0/0.15/0.4; '
                       'compared: tree of the real parser (syntactic phase) vs Lean Pratt model with the generated table vs '
                       'Lean EBNF reference parser; then source round trip (tree, value), whitespace/comment variants, '
-                      'hash seeds, tokenizer alternation orders. distinct = distinct token lines with >= 2 operators')
+                      'hash seeds, tokenizer alternation orders, hand-written trees, constructor-option variants. distinct = distinct token lines with >= 2 operators')
     for i in range(0, len(cases), 5000):
         compare_tokens(run, cases[i:i + 5000])
     wcases = [c for c in cases if len(c[1]) >= 3][:run.scale(600, 6000)]
@@ -1161,8 +1238,105 @@ def correspond(run: Run) -> None:
                         run.disagree(Disagreement({'version': v, 'source': s}, d, None, 'parses', what='general-corpus-parse'))
                     else:
                         roundtrip(run, v, s, tok, d)
+    expected_pass(run)
+    options_pass(run, cases)
     hashseed_pass(run)
     permutation_pass(run)
+
+
+# constructs outside the abstract alphabet whose grouping is fixed by the EBNF: (first version, source, tree
+# written by hand from the grammar in the notation of Token.tree).  Checked for the version and every later
+# one, default and compatibility-mode parsers.
+EXPECTED = [
+    ('31', '(?1 + ?2)', '(+ (? (1)) (? (2)))'),
+    ('31', '(?1, ?2)', '(, (? (1)) (? (2)))'),
+    ('31', "concat(?1, '-', ?2)", "(concat (? (1)) ('-') (? (2)))"),
+    ('31', '[?1 + 1, ?2]', '([ (+ (? (1)) (1)) (? (2)))'),
+    ('31', '[(?1 + 1) = 2]', '([ (= (+ (? (1)) (1)) (2)))'),
+    ('31', 'array { ?1, ?2 * 2 }', '(array (? (1)) (* (? (2)) (2)))'),   # the array token holds the members
+    ('31', 'a[?k = 1 and ?*]', '([ (a) (and (= (? (k)) (1)) (? (*))))'),
+    ('31', 'a?k?1 = ?k?1', '(= (? (? (a) (k)) (1)) (? (? (k)) (1)))'),
+    ('31', 'max((?a, ?b + 1))', '(max (, (? (a)) (+ (? (b)) (1))))'),
+    ('31', '-?1 + ?2', '(+ (- (? (1))) (? (2)))'),
+    ('20', '-1 instance of xs:integer', '(instance (- (1)) (: (xs) (integer)))'),
+    ('20', '-1 cast as xs:integer', '(cast (- (1)) (: (xs) (integer)))'),
+    ('20', '+1 castable as xs:integer', '(castable (+ (1)) (: (xs) (integer)))'),
+    ('20', '-a treat as item()', '(treat (- (a)) (item))'),
+    ('20', '-a union b', '(union (- (a)) (b))'), ('20', '-a | b', '(| (- (a)) (b))'),
+    ('20', '-a intersect b', '(intersect (- (a)) (b))'), ('20', '-a except b', '(except (- (a)) (b))'),
+    ('20', '-a/b', '(- (/ (a) (b)))'), ('20', '-a[1]', '(- ([ (a) (1)))'), ('20', '- -a * b', '(* (- (- (a))) (b))'),
+    ('30', '-a ! b', '(- (! (a) (b)))'), ('31', '-a => string()', '(=> (- (a)) (string) ())'),
+    ('10', '-a | b', '(- (| (a) (b)))'), ('10', '-a * b', '(* (- (a)) (b))'), ('10', '-a div b', '(div (- (a)) (b))'),
+]
+
+
+def full_parse_tree(ver: str, src: str, **options) -> str:
+    from elementpath.exceptions import ElementPathError
+    from elementpath.tdop import Parser as TdopParser
+    try:
+        return TdopParser.parse(parser(ver, **options), src).tree
+    except ElementPathError as e:
+        return 'ERR:' + (getattr(e, 'code', None) or 'none').split(':')[-1]
+    except RecursionError:
+        return 'ERR:OTHER:RecursionError'
+    except Exception as e:
+        return f'ERR:OTHER:{type(e).__name__}'
+
+
+def expected_pass(run: Run) -> None:
+    st = run.stats
+    for first, src, tree in EXPECTED:
+        if tree is None:
+            continue
+        for v in ALL_VERSIONS:
+            if base_of(v) < first or (first == '10' and v != '10'):
+                continue
+            got = full_parse_tree(v, src)
+            st.evaluations += 1
+            st.count('expected-tree')
+            if got != tree:
+                run.disagree(Disagreement({'version': v, 'source': src}, got, None, tree, what='hand-written-tree',
+                                          site='nud/led of the constructs outside the Lean model'))
+
+
+# constructor options that could influence the syntactic phase; the grouping must not depend on them
+OPTION_VARIANTS = [
+    {'compatibility_mode': True}, {'strict': False}, {'xsd_version': '1.1'},
+    {'default_namespace': 'urn:c04:default'}, {'function_namespace': 'urn:c04:functions'},
+    {'namespaces': {'p': 'urn:c04:p'}},
+]
+
+
+def options_pass(run: Run, cases: list) -> None:
+    """the same source parsed by parsers built with other constructor options gives the same tree"""
+    tabs = tables()
+    st = run.stats
+    per_version = run.scale(60, 600)
+    seen: dict = {}
+    work = []
+    for v, toks in cases:
+        if v in ('20', '30', '31') and seen.get(v, 0) < per_version and len(toks) >= 3:
+            seen[v] = seen.get(v, 0) + 1
+            work.append((v, render(tabs[v], toks), True))
+    for first, src, _ in EXPECTED:
+        for v in ('20', '30', '31'):
+            if v >= first and first != '10':
+                work.append((v, src, False))
+    for v in ('20', '30', '31'):
+        for vv in VERSIONS:
+            if vv <= v:
+                work += [(v, s, False) for s in GENERAL_CORPUS[vv]]
+    for v, src, fragment in work:
+        base = full_parse_tree(v, src)
+        for opt in OPTION_VARIANTS:
+            if not fragment and ('function_namespace' in opt):
+                continue        # unprefixed function names are resolved in the function namespace by design
+            got = full_parse_tree(v, src, **opt)
+            st.evaluations += 1
+            st.count('option-variant:' + next(iter(opt)))
+            if got != base:
+                run.disagree(Disagreement({'version': v, 'source': src, 'options': opt}, got, None, base,
+                                          what='constructor-option-invariance', site='parser options read by nud/led'))
 
 
 def body(run: Run) -> int:
